@@ -202,7 +202,7 @@ def run(ctx):
     quick = ctx.quick()
     known_ids = {k["id"] for k in ctx.known}
 
-    objs_all = build_objects(ctx, *((6, 6, 40) if quick else (12, 36, 60)))
+    objs_all = build_objects(ctx, *((8, 10, 45) if quick else (12, 36, 60)))
     # only objects the real validator accepts are in the scope of the property (anything else is C01's business)
     objs, golden_invalid = [], []
     for o in objs_all:
@@ -215,7 +215,7 @@ def run(ctx):
     if not objs:
         raise common.BuildError("no valid object was produced by the histories")
 
-    cases, n_candidates = plan(ctx, objs, budget=1500 if quick else 30000, per_group=2 if quick else None,
+    cases, n_candidates = plan(ctx, objs, budget=3000 if quick else 30000, per_group=3 if quick else None,
                                n_offsets=3 if quick else 8, every_byte_objects=0 if quick else 4)
     with concurrent.futures.ThreadPoolExecutor(max_workers=common.NPROC) as ex:
         futs = [ex.submit(run_case, cli, ctx, i, objs[oi], c) for i, (oi, c) in enumerate(cases)]
@@ -367,7 +367,7 @@ def run(ctx):
                            "the inventory parser is abstract in the model (parse_inv): the check instantiates it with vplib/ocflv.validate_inventory")
     ctx.assumptions.append("objects are written through the library harness (vh hist) against /repo; validation runs through the release CLI built from VERIF_REPO")
     return common.finish_with_proof(ctx, proof,
-        rule="objects: 6 scripted + 6 generated histories (quick) over sha512/sha256, spec 1.0/1.1/upgrade, content directory names, zero padding; "
+        rule="objects: 8 scripted + 10 generated histories (quick; 12 + 36 thorough) over sha512/sha256, spec 1.0/1.1/upgrade, content directory names, zero padding; "
              "corruptions: every kind x every file/directory x sampled offsets, stratified by (kind, file class); "
              "distinct = distinct (kind, file class, detected with fixity, detected without)")
 
